@@ -636,9 +636,19 @@ func monitorC04(c fw.Case, outs []string) []string {
 			want := map[string]string{}
 			for path, pv := range cfg.View {
 				if pv.Deleted {
+					// a delete the device refused leaves what the last applied change put there
+					if p := s.Prop[fmt.Sprintf("%d-%d", t, pv.Index)]; p != nil && p.Apply == "f" {
+						if av, ok := cfg.Vals[path]; ok && !av.Deleted {
+							want[path] = av.Value
+						}
+					}
 					continue
 				}
 				if p := s.Prop[fmt.Sprintf("%d-%d", t, pv.Index)]; p != nil && p.Apply == "f" {
+					// the device refused this change: it keeps what the last applied change left there
+					if av, ok := cfg.Vals[path]; ok && !av.Deleted {
+						want[path] = av.Value
+					}
 					continue
 				}
 				want[path] = pv.Value
